@@ -220,3 +220,13 @@ Definition peg_parse (text : str) : res (option tree) :=
   | Panic s => Panic s
   | OutOfFuel => OutOfFuel
   end.
+
+(* the whole model of gsd_parser::parser::parse at text level: PEG model of pest, then the interpretation step.
+   Ok (Some (d, w)) = description and number of warnings, Ok None = Err (syntax error or error of parser.rs) *)
+Definition gsd_model (text : str) : res (option (desc * Z)) :=
+  match peg_parse text with
+  | Ok (Some t) => to_res (interp t)
+  | Ok None => Ok None
+  | Panic s => Panic s
+  | OutOfFuel => OutOfFuel
+  end.
